@@ -187,6 +187,11 @@ where
     fn next(&mut self) -> Option<(I, P)> {
         self.pq.pop_min()
     }
+
+    fn size_hint(&self) -> (usize, Option<usize>) {
+        let len = self.pq.len();
+        (len, Some(len))
+    }
 }
 
 impl<I, P, H> DoubleEndedIterator for IntoSortedIter<I, P, H>
